@@ -1,6 +1,7 @@
 package gosym
 
 import (
+	"os"
 	"fmt"
 	"go/token"
 	"go/types"
@@ -222,8 +223,13 @@ func (i *interpreter) schedPoint(th *thread, what string) {
 	if th.inInit > 0 {
 		return
 	}
+	if schedLog {
+		fmt.Fprintf(os.Stderr, "SCHED %-28s before %s\n", th.name, what)
+	}
 	i.reschedule(th, true)
 }
+
+var schedLog = os.Getenv("GOSYM_SCHEDLOG") != ""
 
 // releasePoint: release operations (Unlock, RUnlock, WaitGroup.Done) are left movers: executing them before
 // any operation of another goroutine that was scheduled in between leads to the same state, so no scheduling
